@@ -513,5 +513,60 @@ pub fn alltags(a: &Args) -> Report {
     rep.traces += 1;
     rep.sample(json!({"registered": name, "tags_punctured": punct.len()}));
   }
+  // epoch rotation with a replica: every tag registered, tags retired in ascending, descending and
+  // bit-reversed order (the orders that drive the key to its largest states), the key state
+  // exported after EVERY puncture and installed in a fresh instance, which must answer exactly
+  // what the exporter answers
+  {
+    use crate::ggm::{export_bytes, import_server};
+    let pt = Client::blind(b"rotation").0;
+    let ans = |s: &Server, md: u8| -> Option<Vec<u8>> {
+      match guard(|| s.eval(&pt, md, false)) {
+        Guard::Done(Ok(ev)) => Some(ev.output.as_bytes().to_vec()),
+        _ => None,
+      }
+    };
+    let orders: Vec<(&str, Vec<u8>)> = vec![
+      ("ascending", (0..=255u8).collect()),
+      ("descending", (0..=255u8).rev().collect()),
+      ("bit-reversed", (0..=255u8).map(|x| x.reverse_bits()).collect()),
+    ];
+    for (oname, order) in orders {
+      let mut s = match Server::new((0..=255u8).collect()) {
+        Ok(s) => s,
+        Err(_) => continue,
+      };
+      for (k, md) in order.iter().enumerate() {
+        if !matches!(guard(|| s.puncture(*md)), Guard::Done(Ok(()))) {
+          rep.violation("C14", "Server::puncture", "rotation:puncture-refused",
+            format!("puncture({md}) of a live tag refused at step {k} of the {oname} rotation"), json!({"order": oname, "step": k, "tag": md}));
+          break;
+        }
+        rep.evaluations += 1;
+        let bytes = export_bytes(&s);
+        match guard(|| import_server(&bytes)) {
+          Guard::Done(Some(replica)) => {
+            let probes = [*md, order[(k + 1) % 256], order[(k + 7) % 256], order[255], md.wrapping_add(128)];
+            for t in probes {
+              if ans(&replica, t) != ans(&s, t) {
+                rep.violation("C14", "Server::set_private_key", "rotation:replica-differs",
+                  format!("after {} punctures ({oname}) the restored replica and the exporter disagree on tag {t}", k + 1),
+                  json!({"order": oname, "step": k, "tag": t}));
+                break;
+              }
+            }
+          }
+          _ => {
+            rep.violation("C14", "Server::set_private_key", "rotation:import-failed",
+              format!("the key state exported after {} punctures ({oname} order, {} bytes) cannot be installed in a fresh instance", k + 1, bytes.len()),
+              json!({"order": oname, "step": k, "state_bytes": bytes.len()}));
+            break;
+          }
+        }
+        rep.nontrivial(format!("rotation:{oname}:{k}"));
+      }
+      rep.traces += 1;
+    }
+  }
   rep
 }
